@@ -221,20 +221,43 @@ def gen_par(rng, reps):
         cells.append(w)
     arrays.append(cells)
     baked = {"nil": False, "id": len(arrays) - 1, "off": 0, "len": nb, "cap": nb + spare}
-    n = rng.choice([2, 2, 3, 4, 6])
+    # IDENTICAL call-time arguments are the main shape (the same question asked by several goroutines at once: every
+    # call must start its own child); "staggered": identical calls started one after the other while the earlier
+    # children are still running, with a Setenv of a referenced variable in between; "distinct": told apart by argument
+    shape = rng.choice(["identical"] * 5 + ["distinct"] * 3 + ["staggered"] * 4)
+    n = rng.choice([2, 2, 3, 4, 6]) if shape != "staggered" else rng.choice([2, 2, 3])
     extras = []
-    for g in range(n):
-        # the calls differ in their arguments, so that the children can be told apart
-        arrays.append(["G%d-%s" % (g, rng.choice(WORDS)), rng.choice(WORDS)])
-        extras.append({"nil": False, "id": len(arrays) - 1, "off": 0, "len": rng.choice([1, 1, 2]), "cap": 2})
-    cls = [{"kind": rng.choice(["run", "out", "out"]), "cmd": rng.choice(CMDS_ABS), "baked": baked}]
+    stagger = None
+    if shape == "distinct":
+        for g in range(n):
+            arrays.append(["G%d-%s" % (g, rng.choice(WORDS)), rng.choice(WORDS)])
+            extras.append({"nil": False, "id": len(arrays) - 1, "off": 0, "len": rng.choice([1, 1, 2]), "cap": 2})
+    else:
+        var = rng.choice(VARS)
+        same = ["same-" + rng.choice(WORDS), rng.choice(["$%s" % var, "${%s}x" % var, "pre$%s" % var]) if shape == "staggered" else rng.choice(WORDS)]
+        ln = 2 if shape == "staggered" else rng.choice([0, 1, 1, 2])
+        shared_slice = rng.random() < 0.5          # the very same slice handed to every call, or equal contents in separate arrays
+        for g in range(n):
+            if g == 0 or not shared_slice:
+                arrays.append(list(same))
+            extras.append({"nil": False, "id": len(arrays) - 1, "off": 0, "len": ln, "cap": 2})
+        if shape == "staggered":
+            stagger = [None] + [{"k": var, "v": rng.choice(VALUES)} if (g == 1 or rng.random() < 0.7) else None for g in range(1, n)]
+            reps = 1
+    kind = "out" if shape == "staggered" else rng.choice(["run", "out", "out"])
+    cls = [{"kind": kind, "cmd": rng.choice(CMDS_ABS), "baked": baked}]
     ops = [{"op": "setenv", "k": rng.choice(VARS + [VERBOSE]), "v": rng.choice(VALUES)} for _ in range(rng.choice([0, 0, 1, 2]))]
-    par = {"op": "par", "c": 0, "extras": extras, "reps": reps, "bound_ms": PAR_BOUND_MS}
+    par = {"op": "par", "c": 0, "extras": extras, "reps": reps, "bound_ms": PAR_BOUND_MS, "shape": shape}
+    if stagger:
+        par["stagger"] = stagger
     if rng.random() < 0.25:
         # the reference behaviour: the same calls made directly, sh.Output/sh.Run(cmd, baked+extra...)
-        par.update(parfn=rng.choice(["Output", "Run"]), cmd=cls[0]["cmd"])
+        par.update(parfn="Output" if shape == "staggered" else rng.choice(["Output", "Run"]), cmd=cls[0]["cmd"])
+        done = set()
         for g, e in enumerate(extras):
-            arrays[e["id"]] = cells[:nb] + arrays[e["id"]]
+            if e["id"] not in done:
+                done.add(e["id"])
+                arrays[e["id"]] = cells[:nb] + arrays[e["id"]]
             extras[g] = dict(e, len=nb + e["len"], cap=nb + 2)
     ops.append(par)
     return {"kind": "par", "env": gen_env(rng, cmdvars=False), "arrays": arrays, "closures": cls, "ops": ops,
@@ -449,11 +472,23 @@ def par_extras(o):
     return o.get("extras") or [o["a"], o["b"]]
 
 
+def par_envs(env, o):
+    """the environment at the START of each concurrent call (staggered: a Setenv right before some of them)"""
+    envs, e = [], dict(env)
+    for g, _ in enumerate(par_extras(o)):
+        st = (o.get("stagger") or [])[g] if g < len(o.get("stagger") or []) else None
+        if st:
+            e = dict(e, **{st["k"]: st["v"]})
+        envs.append(e)
+    return envs
+
+
 def par_expected(case, env, o, fs):
-    """[(argv, text, ...)] per concurrent call"""
+    """[(argv, text, ...)] per concurrent call, each under the environment at ITS start"""
+    envs = par_envs(env, o)
     if o.get("parfn"):
-        return [expected_call(case, env, {"op": "direct", "fn": o["parfn"], "emap": None, "cmd": o["cmd"], "args": x}, fs) for x in par_extras(o)]
-    return [expected_closure(case, env, o["c"], x, fs) for x in par_extras(o)]
+        return [expected_call(case, envs[g], {"op": "direct", "fn": o["parfn"], "emap": None, "cmd": o["cmd"], "args": x}, fs) for g, x in enumerate(par_extras(o))]
+    return [expected_closure(case, envs[g], o["c"], x, fs) for g, x in enumerate(par_extras(o))]
 
 
 def par_what(case, o):
@@ -519,9 +554,10 @@ def oracle(case, ans):
             exp = par_expected(case, env, o, fs)
             for ri, rp in enumerate(ob.get("reps") or []):
                 if rp.get("stalled"):
-                    bad.append("op %d rep %d: %d concurrent calls of %s: only %d of them had their child alive at the same time; after %d ms %d call(s) had neither started a child "
-                               "nor returned while the other children were still running (held at the gate): a call did not start while another call was in flight" % (
-                                   i, ri, len(exp), par_what(case, o), rp["alive"], rp["waited_ms"], len(exp) - rp["alive"] - rp["returned_before_gate"]))
+                    bad.append("op %d rep %d: %d %s calls of %s in flight, only %d children started (%d alive at the same time); after %d ms %d call(s) had neither started a child "
+                               "nor returned while the other children were still running (held at the gate): a call did not start its own child while another call was in flight" % (
+                                   i, ri, len(exp), o.get("shape", "concurrent"), par_what(case, o), len(rp["lines"]), rp["alive"], rp["waited_ms"],
+                                   len(exp) - rp["alive"] - rp["returned_before_gate"]))
                 if sorted(rp["lines"]) != sorted(e[0] for e in exp):
                     nb = par_nbaked(case, o)
                     bad.append("op %d rep %d: %d concurrent calls of %s (%d baked-in arguments): after cmd and the baked-in arguments the children received %s, the calls passed %s%s" % (
@@ -534,6 +570,7 @@ def oracle(case, ans):
                         bad.append("op %d rep %d: concurrent call %d returned an error: %r" % (i, ri, g, rp["errs"][g][:200]))
                 if rp["snap"] != arrays:
                     bad.append("op %d rep %d: caller-visible arrays changed by concurrent calls: %s -> %s" % (i, ri, short(arrays), short(rp["snap"])))
+            env = par_envs(env, o)[-1]
         if ob["snap"] != arrays:
             bad.append("op %d (%s): caller-visible arrays changed: %s -> %s" % (i, o["op"], short(arrays), short(ob["snap"])))
             break
@@ -618,15 +655,55 @@ def hist_term(case, ans):
         t_heap(case["arrays"]), t_lookup(case, ans), t_env(full_env(case)), t_cls(case["closures"]), coq_list([t_op(o) for o in case["ops"]]), coq_list(obs))
 
 
-def par_terms(case, ans):
-    """the calls of one repetition are compared pairwise with the two-goroutine model: (0,1), (2,3), ..."""
+def stagger_history(case, ans, oi, o, ob, rp):
+    """a staggered repetition as a HISTORY for the model: call, Setenv, call, ... - each call is predicted under the
+    environment at its own start (by C16_concurrent the interleaving of the memory actions does not matter)"""
+    extras = par_extras(o)
+    exp = [e[0] for e in par_expected(case, par_env_before(case, oi), o, {})]
+    rest = list(rp["lines"])
+    mine = []
+    for e in exp:
+        if e in rest:
+            rest.remove(e)
+            mine.append([e])
+        else:
+            mine.append(None)
+    mine = [m if m is not None else ([rest.pop(0)] if rest else []) for m in mine]
+    ops, obs = list(case["ops"][:oi]), list(ans["obs"][:oi])
+    for g, x in enumerate(extras):
+        st = (o.get("stagger") or [])[g] if g < len(o.get("stagger") or []) else None
+        if st:
+            ops.append({"op": "setenv", "k": st["k"], "v": st["v"]})
+            obs.append({"argv": [], "out": None, "stdout": "", "status": 0, "snap": rp["snap"], "emap": None})
+        ops.append({"op": "direct", "fn": o["parfn"], "emap": None, "cmd": o["cmd"], "args": x} if o.get("parfn") else {"op": "call", "c": o["c"], "extra": x})
+        obs.append({"argv": mine[g], "out": rp["outs"][g], "stdout": "", "status": rp["status"][g], "snap": rp["snap"], "emap": None,
+                    "lookups": ob.get("lookups")})
+    return dict(case, ops=ops), {"obs": obs}
+
+
+def par_env_before(case, oi):
     env = full_env(case)
-    out = []
+    for o in case["ops"][:oi]:
+        if o["op"] == "setenv":
+            env[o["k"]] = o["v"]
+    return env
+
+
+def par_terms(case, ans):
+    """the calls of one repetition are compared pairwise with the two-goroutine model: (0,1), (2,3), ...;
+    staggered repetitions as histories.  Returns (concurrent items, history items)"""
+    env = full_env(case)
+    out, hist_items = [], []
     for o, ob in zip(case["ops"], ans["obs"]):
         if o["op"] == "setenv":
             env[o["k"]] = o["v"]
             continue
         extras = par_extras(o)
+        if o.get("stagger"):
+            for rp in (ob.get("reps") or [])[:1]:
+                c2, a2 = stagger_history(case, ans, case["ops"].index(o), o, ob, rp)
+                hist_items.append(hist_term(c2, a2))
+            continue
         exp = [e[0] for e in par_expected(case, dict(env), o, {})]
         if o.get("parfn"):
             t_call = lambda x: "(CallDirect %s [] %s %s)" % (FNSEL[o["parfn"]], coq_str(o["cmd"]), t_slice(x))
@@ -658,7 +735,7 @@ def par_terms(case, ans):
                                coq_list([coq_bool(x) for x in case["scheds"][ri % len(case["scheds"])]]),
                                t_strs(mine[ga]), t_strs(mine[gb]), t_optstr(rp["outs"][ga]), t_optstr(rp["outs"][gb]),
                                "h0_" if rp["snap"] == case["arrays"] else t_heap(rp["snap"])))
-    return out
+    return out, hist_items
 
 
 def abstract(case):
@@ -687,7 +764,7 @@ def run(ctx):
         cases = [dict(ctx.replay["case"])]
     else:
         nh = 260 if ctx.quick else 6000
-        npar = 20 if ctx.quick else 300
+        npar = 26 if ctx.quick else 300
         reps = 4 if ctx.quick else 10
         cases = [gen_history(rng) for _ in range(nh)] + [gen_par(rng, reps) for _ in range(npar)]
     ctx.log("built; running %d cases" % len(cases))
@@ -707,12 +784,14 @@ def run(ctx):
     pars = [(c, a) for c, a in zip(cases, answers) if c["kind"] == "par" and not a.get("error")]
     header = "From Mage Require Import Base.Strs Base.Expand Model.Slices Run.eval_C16.\n"
     items = [hist_term(c, a) for c, a in hist]
-    mism = ctx.coq_eval_shards("cases_C16", header, items, per_shard=max(20, (len(items) + NCPU - 1) // NCPU)) if items else []
     pitems, powner = [], []
     for c, a in pars:
-        ts = par_terms(c, a)
+        ts, hs = par_terms(c, a)
         pitems += ts
         powner += [(c, a)] * len(ts)
+        items += hs
+        hist += [(c, a)] * len(hs)
+    mism = ctx.coq_eval_shards("cases_C16", header, items, per_shard=max(20, (len(items) + NCPU - 1) // NCPU)) if items else []
     pmism = ctx.coq_eval_shards("cases_C16par", header + "Definition mismatches := mismatches_conc.\n", pitems,
                                 per_shard=max(20, (len(pitems) + NCPU - 1) // NCPU)) if pitems else []
     ctx.log("model evaluated")
@@ -763,7 +842,7 @@ def run(ctx):
             "par_repetitions": 0, "failing_calls": 0, "output_family_call_after_failed_call_with_output": 0,
             "runcmd_called_under_other_verbose_than_made": 0, "calls_not_started": 0,
             "closure_called_again_with_another_program_named": 0, "closure_started_then_not_or_vice_versa": 0, "calls_in_verbose_mode": 0, "verbose_direct_calls_without_dollar": 0, "concurrent_slow_expansion_cases": 0}
-    par_baked, par_goroutines, par_targets = {}, {}, {}
+    par_baked, par_goroutines, par_targets, par_shapes = {}, {}, {}, {}
     len_outcome, children = {}, {}
     overlap = {"repetitions": 0, "all_children_alive_together": 0, "max_wait_ms": 0}
     for c, a in zip(cases, answers):
@@ -835,6 +914,7 @@ def run(ctx):
                 feat["verbose_direct_calls_without_dollar"] += is_verbose and len(cs) > 0 and not any("$" in x for x in cs)
             if o["op"] == "par":
                 feat["par_repetitions"] += o["reps"]
+                par_shapes[o.get("shape", "distinct")] = par_shapes.get(o.get("shape", "distinct"), 0) + 1
                 tgt = o.get("parfn") or ("OutCmd" if c["closures"][o["c"]]["kind"] == "out" else "RunCmd")
                 par_targets[tgt] = par_targets.get(tgt, 0) + 1
                 nb = c["closures"][o["c"]]["baked"]["len"]
@@ -858,7 +938,9 @@ def run(ctx):
                    "arrays of 0-41 cells (a quarter around and beyond 16/32); 40% of the arrays hold no $ reference at all; 0-20% of the cells of an array script the child "
                    "(--exit=N: print then fail, --kill: print then die by SIGKILL, --quiet); the number of children started by a call is the length of its argv list; "
                    "observed per call: argv, text handed back, bytes on os.Stdout (fresh file per call), exit status, all arrays, env map; "
-                   "concurrent cases: 2-6 goroutines released together on one closure with 1,2,3,4,8,16,17,19,21 or 33 baked-in arguments (caller slice with 0-2 spare cells), "
+                   "concurrent cases: IDENTICAL call-time arguments as the main shape (every call must start its own child: the per-case journal has one line per child), "
+                   "staggered identical calls with a Setenv of a referenced variable between their starts while the earlier children are held, and calls told apart by argument; "
+                   "2-6 goroutines released together on one closure with 1,2,3,4,8,16,17,19,21 or 33 baked-in arguments (caller slice with 0-2 spare cells), "
                    "1-2 extra arguments each, baked-in arguments that are slow to expand (thousands of ${Z}) so the calls overlap inside Exec, gate-held children, the gate opens only when ALL children of the case are alive together (overlap is an observable, bound 15 s), "
                    "a quarter of the concurrent cases call sh.Output/sh.Run directly (reference behaviour); "
                    "each pair of calls of each repetition is one model evaluation; "
@@ -871,6 +953,7 @@ def run(ctx):
     cov["calls_by_length_and_outcome"] = len_outcome
     cov["children_started_per_call"] = children
     cov["concurrent_targets"] = par_targets
+    cov["concurrent_shapes"] = par_shapes
     cov["concurrent_overlap"] = overlap
     cov["concurrent_goroutines"] = {str(k): v for k, v in sorted(par_goroutines.items())}
     cov["closure_cmd_forms"] = cmdforms
